@@ -135,12 +135,12 @@ def rand_content(rng, maxlen=12):
 # Contents beyond toy scale: prefixes (and near-prefixes) of a few shared base strings, 40-260
 # bytes, so that files are duplicates / prefixes / extensions of one another at sizes where code
 # may switch strategy (thresholds written into the program rather than taken from the options).
-BASES = [bytes((i * 7 + j * 13) % 251 + 1 for i in range(260)) for j in range(3)]
+BASES = [bytes((i * 7 + j * 13) % 251 + 1 for i in range(640)) for j in range(3)]
 
 
 def prefix_content(rng, bases=None):
     b = rng.choice(bases or BASES)
-    n = rng.choice([40, 64, 65, 70, 96, 100, 128, 129, 150, 200, 260])
+    n = rng.choice([40, 64, 65, 70, 96, 100, 128, 129, 150, 200, 256, 257, 260, 300, 400, 600])
     c = b[:n]
     if rng.random() < 0.15:
         c = c[:-1] + bytes([(c[-1] % 250) + 2])
@@ -338,6 +338,44 @@ def mutate_tree(rng, tree, names=NAMES, mtimes=MTIMES, maxlen=12, nmut=None):
     # touching a directory's children changes its mtime on a real filesystem; we set all mtimes
     # explicitly, so directory mtimes stay what the nodes say.
     return t
+
+
+def fix_tree(tree):
+    """Make a generated tree materialisable whatever the generator did: one node per path (the first
+    wins), every ancestor present as a directory (else the node is dropped), the root a directory."""
+    seen = {}
+    out = []
+    for n in sorted(tree, key=lambda n: len(n["p"])):
+        key = tuple(tuple(c) for c in n["p"])
+        if key in seen:
+            continue
+        if n["p"]:
+            parent = key[:-1]
+            if parent not in seen or seen[parent] != "Dir":
+                continue
+            if any(len(c) == 0 or 47 in c or 0 in c or c in ([46], [46, 46]) for c in n["p"]):
+                continue
+        elif n["k"] != "Dir":
+            continue
+        seen[key] = n["k"]
+        out.append(n)
+    # keep the generator's order for what survives
+    keep = {id(n) for n in out}
+    return [n for n in tree if id(n) in keep]
+
+
+def fix_scenario(s):
+    def walk(steps):
+        for st in steps:
+            if st.get("op") in ("tree", "outside") and "tree" in st:
+                st["tree"] = fix_tree(st["tree"])
+            for a in st.get("actors", []):
+                if "tree" in a:
+                    a["tree"] = fix_tree(a["tree"])
+            if "then" in st:
+                walk(st["then"])
+    walk(s["steps"])
+    return s
 
 
 _uniq = [0]
